@@ -326,7 +326,16 @@ type MethodSetCheck struct {
 	Where                       string
 }
 
+// RecvOnlyCheck: in package Pkg, receives from the channel field Chan occur only in Funcs.
+type RecvOnlyCheck struct {
+	Pkg, Chan string
+	Funcs     []string
+	Props     []string
+	Where     string
+}
+
 type SpecDB struct {
+	RecvOnly   []*RecvOnlyCheck
 	MethodSets []*MethodSetCheck
 	Contracts map[string]*Contract
 	Funcs     map[string]*SpecFunc
@@ -342,7 +351,7 @@ func NewSpecDB() *SpecDB {
 }
 
 var clauseKW = map[string]bool{"fresh": true, "requires": true, "ensures": true, "modifies": true, "crash_inv": true, "loop": true, "observe": true, "param": true, "trusted": true, "nopanic": true, "pure": true, "noinline": true, "inline": true, "property": true, "assert": true}
-var topKW = map[string]bool{"methodset": true, "func": true, "package": true, "record": true, "spec": true, "model": true, "pred": true, "axiom": true}
+var topKW = map[string]bool{"recvonly": true, "methodset": true, "func": true, "package": true, "record": true, "spec": true, "model": true, "pred": true, "axiom": true}
 
 // LoadFile parses one contract file. pkgPath is the import path the file's functions live in
 // (overridden by `//@ package` lines).
@@ -463,6 +472,25 @@ func (db *SpecDB) LoadFile(file, pkgPath string) error {
 				return fail(err)
 			}
 			db.Preds[name] = &Pred{Name: name, Params: args, Body: body}
+			cur = nil
+		case "recvonly":
+			// recvonly chanField in f1, f2 property Cxx
+			rc := &RecvOnlyCheck{Pkg: pkgPath, Where: where}
+			mode := ""
+			for i, w := range fs[1:] {
+				w = strings.TrimSuffix(w, ",")
+				switch {
+				case i == 0:
+					rc.Chan = w
+				case w == "in" || w == "property":
+					mode = w
+				case mode == "in":
+					rc.Funcs = append(rc.Funcs, w)
+				case mode == "property":
+					rc.Props = append(rc.Props, w)
+				}
+			}
+			db.RecvOnly = append(db.RecvOnly, rc)
 			cur = nil
 		case "methodset":
 			// methodset *T Method declared-on T property Cxx ...
